@@ -142,6 +142,7 @@ func (sc *Scenario) PrepareOn(net *netsim.Sim) *Env {
 	env := &Env{Sc: sc, Net: net, Chain: f.Chain(sc.Shapes())}
 	if sc.CRLRoute == "fetcher" {
 		env.Fetcher = NewFetcher()
+		env.Fetcher.Net = net
 	}
 	switch sc.Cache {
 	case "healthy":
